@@ -24,9 +24,16 @@ DIGEST = rc.comp(1, bytes(32))
 def run(ctx):
     ctx.rule = RULE
     rng = ctx.rng
-    nsch = ctx.n(160, 6000)
-    for si in range(nsch):
-        schema = lvs.gen_schema(rng, with_signers=True, n_rules=rng.randint(3, 7))
+    nsch = ctx.n(120, 6000)
+    templates = []
+    for _ in range(ctx.n(3, 12)):
+        templates += lvs.template_schemas(rng, True)
+    for si in range(nsch + len(templates)):
+        if si < len(templates):
+            schema = templates[si]
+            ctx.klass('template-schema')
+        else:
+            schema = lvs.gen_schema(rng, with_signers=True, n_rules=rng.randint(3, 7))
         text = lvs.schema_text(schema)
         w = {'schema': text}
         tot_alts, max_len_ = lvs.alt_counts(schema)
@@ -136,6 +143,7 @@ def run(ctx):
                         ctx.report(mech, f'{label}: check({wn["pkt"]}, {wn["key"]}) = {got}, schema says {exp}', wn if nfail <= 3 else None)
             ctx.case((text, tuple(pkt), tuple(key)), nontrivial=any(r in signed_rules for r, b in ref.match(pkt)),
                      sample=dict(w, pkt=rc.name_to_uri(pkt, canonical=True), key=rc.name_to_uri(key, canonical=True), expected=exp) if exp and ctx.evaluations % 9000 == 1 else None)
+    ctx.need_class('template-schema')
     for k in ('schema', 'check-true', 'check-false'):
         ctx.need_event(k)
     ctx.assumptions = ['schemas are level-structured so that no name pattern is its own signer',
